@@ -9,7 +9,8 @@ TAG=$(echo "$D" | tr '/' '_')
 W=/tmp/sv/$TAG
 rm -rf "$W"; mkdir -p "$W"
 git -C /repo worktree prune
-git -C /repo worktree add --detach -f "$W/repo" HEAD >/dev/null 2>&1 || { echo "worktree failed"; exit 2; }
+for try in 1 2 3 4 5; do git -C /repo worktree add --detach -f "$W/repo" HEAD >/dev/null 2>&1 && break; sleep 3; done
+[ -d "$W/repo" ] || { echo "worktree failed"; exit 2; }
 cd "$W/repo"
 DEST=$(python3 -c "import json;print(json.load(open('$D/meta.json'))['demo_dest'])")
 RUN=$(python3 -c "import json;print(json.load(open('$D/meta.json'))['demo_run'])")
